@@ -171,6 +171,22 @@ def _fails_exclusive_keys(func):
     return newfunc
 
 
+def _dim_names_snapshot(node, out: list) -> None:
+    """Appends (node, attribute, value) for the dim names of ``node`` and of every tensordict nested in it."""
+    if is_tensorclass(node):
+        node = node._tensordict
+    if isinstance(node, LazyStackedTensorDict):
+        out.append((node, "_td_dim_name", node._td_dim_name))
+        for td in node.tensordicts:
+            _dim_names_snapshot(td, out)
+    elif isinstance(node, TensorDict):
+        names = node._td_dim_names
+        out.append((node, "_td_dim_names", None if names is None else list(names)))
+        for value in node._tensordict.values():
+            if _is_tensor_collection(type(value)):
+                _dim_names_snapshot(value, out)
+
+
 class LazyStackedTensorDict(TensorDictBase):
     """A Lazy stack of TensorDicts.
 
@@ -512,8 +528,19 @@ class LazyStackedTensorDict(TensorDictBase):
             for td in self.tensordicts:
                 if td._check_dim_name(name):
                     raise ValueError(f"The dimension name {name} is already taken.")
-            for td in self.tensordicts:
-                td.rename_(*names_c)
+            # the members are renamed one after the other: when one of them refuses, the ones
+            # already renamed (and the one that refused, which may have renamed some of its
+            # nested tensordicts) get their names back, or the members would disagree and
+            # ``names`` could not be read any more
+            snapshot = []
+            try:
+                for td in self.tensordicts:
+                    _dim_names_snapshot(td, snapshot)
+                    td.rename_(*names_c)
+            except Exception:
+                for node, attr, names in reversed(snapshot):
+                    setattr(node, attr, names)
+                raise
             self._td_dim_name = name
 
     def _rename_subtds(self, names):
